@@ -22,3 +22,4 @@ def rules(ctx):
     S.c20_r6_read_only(ctx)
     S.c01_r2_grow(ctx)
     S.c08_r4_refused_after_failure(ctx)
+    S.c01_r8_open_recovery(ctx)
